@@ -14,7 +14,7 @@ def main():
     except ModuleNotFoundError:
         pass
     try:
-        log = common.build(timeout=3400)
+        log = common.build(timeout=3400, strict=True)
     except common.BuildError as e:
         print(e.log[-4000:])
         print("SETUP FAILED:", e)
